@@ -11,9 +11,10 @@
 //      of the 20 smallest seeds.
 // Oracle: loads throws a SymEngineException, or returns a non-null value on which str, hash, eq/cmp with itself,
 // free_symbols, get_args, dumps and evalf (in try/catch) all return; no sanitizer report, signal, hang, foreign
-// exception, or single allocation > 64 MB (allocation bomb; the seeds are < 1 KB).
+// exception, or single allocation request > 64 KB (allocation driven by an unvalidated length; the seeds are < 1 KB).
 #include "checks/ser_states.h"
 #include <dirent.h>
+#include <cxxabi.h>
 using namespace serst;
 
 extern "C" const char *__asan_default_options()
@@ -24,8 +25,105 @@ extern "C" const char *__ubsan_default_options()
 {
     return "symbolize=0";
 }
-// largest single allocation requested during the current case (ASan allocator hook; unused in other configs)
+// Allocation model.  The driver replaces the global allocation functions (a documented customisation point; the
+// library itself is unchanged): while a load is being judged, a single request above ALLOC_CAP is recorded and
+// refused with std::bad_alloc, which is what a memory-limited process observes.  This makes "an untrusted length
+// field drives an allocation" a deterministic, cheap observation instead of a multi-second zero-fill (first touch of
+// memory costs ~60 ns/byte in this sandbox) or an ASan abort.  malloc/free underneath are still ASan's.
+static const size_t ALLOC_CAP = 64u << 10; // 64 KB for inputs < 1 KB (the unmodified seeds never request more than a few hundred bytes)
 static volatile size_t g_max_alloc = 0;
+static volatile bool g_cap_active = false;
+static inline void *cap_alloc(size_t n, size_t align)
+{
+    if (n > g_max_alloc)
+        g_max_alloc = n;
+    if (g_cap_active && n > ALLOC_CAP)
+        return nullptr;
+    if (align > alignof(std::max_align_t)) {
+        void *p = nullptr;
+        if (posix_memalign(&p, align, n ? n : 1) != 0)
+            return nullptr;
+        return p;
+    }
+    return malloc(n ? n : 1);
+}
+void *operator new(size_t n)
+{
+    void *p = cap_alloc(n, 0);
+    if (!p)
+        throw std::bad_alloc();
+    return p;
+}
+void *operator new[](size_t n)
+{
+    void *p = cap_alloc(n, 0);
+    if (!p)
+        throw std::bad_alloc();
+    return p;
+}
+void *operator new(size_t n, const std::nothrow_t &) noexcept
+{
+    return cap_alloc(n, 0);
+}
+void *operator new[](size_t n, const std::nothrow_t &) noexcept
+{
+    return cap_alloc(n, 0);
+}
+void *operator new(size_t n, std::align_val_t a)
+{
+    void *p = cap_alloc(n, (size_t)a);
+    if (!p)
+        throw std::bad_alloc();
+    return p;
+}
+void *operator new[](size_t n, std::align_val_t a)
+{
+    void *p = cap_alloc(n, (size_t)a);
+    if (!p)
+        throw std::bad_alloc();
+    return p;
+}
+void operator delete(void *p) noexcept
+{
+    free(p);
+}
+void operator delete[](void *p) noexcept
+{
+    free(p);
+}
+void operator delete(void *p, size_t) noexcept
+{
+    free(p);
+}
+void operator delete[](void *p, size_t) noexcept
+{
+    free(p);
+}
+void operator delete(void *p, const std::nothrow_t &) noexcept
+{
+    free(p);
+}
+void operator delete[](void *p, const std::nothrow_t &) noexcept
+{
+    free(p);
+}
+void operator delete(void *p, std::align_val_t) noexcept
+{
+    free(p);
+}
+void operator delete[](void *p, std::align_val_t) noexcept
+{
+    free(p);
+}
+void operator delete(void *p, size_t, std::align_val_t) noexcept
+{
+    free(p);
+}
+void operator delete[](void *p, size_t, std::align_val_t) noexcept
+{
+    free(p);
+}
+// malloc-level requests (GMP) are observed through the ASan allocator hook
 extern "C" void __sanitizer_malloc_hook(const volatile void *, size_t size)
 {
     if (size > g_max_alloc)
@@ -34,6 +132,7 @@ extern "C" void __sanitizer_malloc_hook(const volatile void *, size_t size)
 
 struct Seed {
     std::string recipe, cls, key;
+    TypeID tc = SYMENGINE_INTEGER;
     bool matrix = false;
     Dump d;
 };
@@ -336,20 +435,31 @@ enum {
     K_ALLOC_16MB,
     K_SLOW,
     K_MATRIX_VALUE,
-    K_SHORT
+    K_US_TOTAL,
+    K_US_LOADS
 };
 static std::vector<std::string> CN = {"loads_executed",
                                       "loads_threw_library_exception",
                                       "loads_returned_value",
-                                      "returned_value_structurally_equal_to_seed",
+                                      "returned_value_prints_like_seed(value-level post-ops skipped)",
                                       "returned_value_different_from_seed",
                                       "post_ops_threw_library_exception(str/evalf/... refused)",
                                       "evalf_returned",
-                                      "cases_with_single_allocation_over_16MB",
+                                      "cases_with_single_allocation_over_64KB",
                                       "cases_over_250ms_cpu",
                                       "matrix_loads_returned_value",
-                                      "unused"};
+                                      "cpu_us_total_in_oracle",
+                                      "cpu_us_in_loads"};
 
+static std::string demangle(const char *n)
+{
+    int st = 0;
+    char *d = abi::__cxa_demangle(n, nullptr, nullptr, &st);
+    std::string o = st == 0 && d ? d : n;
+    free(d);
+    return o;
+}
+static double cpu_now();
 static double cpu_now()
 {
     struct timespec ts;
@@ -357,7 +467,7 @@ static double cpu_now()
     return ts.tv_sec + 1e-9 * ts.tv_nsec;
 }
 
-static const size_t BOMB = 64u << 20;
+static const size_t BOMB = ALLOC_CAP;
 
 static void oracle(const Dev &v, const std::string &layer, Ctx &c)
 {
@@ -368,6 +478,7 @@ static void oracle(const Dev &v, const std::string &layer, Ctx &c)
     c.eval();
     c.count(K_LOADS);
     g_max_alloc = 0;
+    g_cap_active = true;
     double t0 = cpu_now();
     std::string outcome;
     auto viol = [&](const std::string &cls, const std::string &detail) {
@@ -378,7 +489,7 @@ static void oracle(const Dev &v, const std::string &layer, Ctx &c)
         if (dynamic_cast<SymEngineException *>(&x))
             c.count(K_POSTOP_LIBEXC);
         else
-            viol(std::string("post-op-foreign-exception[") + op + "]", std::string(op) + " on the returned value threw " + x.what());
+            viol(std::string("post-op-foreign-exception[") + op + ":" + demangle(typeid(x).name()) + "]", std::string(op) + " on the returned value threw " + x.what());
     };
     if (s.matrix) {
         try {
@@ -414,28 +525,35 @@ static void oracle(const Dev &v, const std::string &layer, Ctx &c)
             c.count(K_LIBEXC);
             outcome = "library-exception";
         } catch (std::bad_alloc &x) {
-            viol("alloc-bomb", std::string("loads threw std::bad_alloc"));
+            viol("alloc-bomb", "loads threw std::bad_alloc: a single allocation of " + std::to_string((size_t)g_max_alloc) + " bytes was requested while loading " + std::to_string(m.size()) + " untrusted bytes");
         } catch (std::length_error &x) {
             viol("alloc-bomb", std::string("loads threw std::length_error: ") + x.what());
         } catch (std::exception &x) {
-            viol(std::string("foreign-exception[") + typeid(x).name() + "]", std::string("loads threw a non-library exception: ") + x.what());
+            viol("foreign-exception[" + demangle(typeid(x).name()) + "]", std::string("loads threw a non-library exception: ") + x.what());
         }
     } else {
         B r;
         bool have = false;
         try {
-            r = Basic::loads(m);
+            double tl0 = cpu_now();
+            try {
+                r = Basic::loads(m);
+            } catch (...) {
+                c.count(K_US_LOADS, (uint64_t)((cpu_now() - tl0) * 1e6));
+                throw;
+            }
+            c.count(K_US_LOADS, (uint64_t)((cpu_now() - tl0) * 1e6));
             have = true;
         } catch (SymEngineException &x) {
             c.count(K_LIBEXC);
             outcome = std::string("library-exception");
             c.outcome("exception:" + squash_digits(std::string(x.what()).substr(0, 40)));
         } catch (std::bad_alloc &x) {
-            viol("alloc-bomb", std::string("loads threw std::bad_alloc"));
+            viol("alloc-bomb", "loads threw std::bad_alloc: a single allocation of " + std::to_string((size_t)g_max_alloc) + " bytes was requested while loading " + std::to_string(m.size()) + " untrusted bytes");
         } catch (std::length_error &x) {
             viol("alloc-bomb", std::string("loads threw std::length_error: ") + x.what());
         } catch (std::exception &x) {
-            viol(std::string("foreign-exception[") + typeid(x).name() + "]", std::string("loads threw a non-library exception: ") + x.what());
+            viol("foreign-exception[" + demangle(typeid(x).name()) + "]", std::string("loads threw a non-library exception: ") + x.what());
         }
         if (have) {
             c.count(K_VALUE);
@@ -457,45 +575,45 @@ static void oracle(const Dev &v, const std::string &layer, Ctx &c)
                 } catch (std::exception &x) {
                     post_exc("hash/eq/cmp/get_args", x);
                 }
-                try {
-                    (void)free_symbols(*r);
-                } catch (std::exception &x) {
-                    post_exc("free_symbols", x);
-                }
-                try {
-                    std::string d2 = r->dumps();
-                    (void)d2;
-                } catch (std::exception &x) {
-                    post_exc("dumps", x);
-                }
-                try {
-                    B ev = evalf(*r, 53, EvalfDomain::Symbolic);
-                    if (!ev.is_null())
-                        c.count(K_EVALF_OK);
-                } catch (std::exception &x) {
-                    post_exc("evalf", x);
-                }
-                std::string kr;
-                try {
-                    kr = key(*r);
-                } catch (std::exception &x) {
-                    post_exc("key", x);
-                }
-                if (kr == s.key)
+                // a value that prints exactly like the seed's value (e.g. only node ids changed) is structurally the
+                // seed value again: the remaining operations were already exercised on it by the unmodified seed
+                bool same = !st.empty() && st == s.cls && r->get_type_code() == s.tc;
+                if (same)
                     c.count(K_VALUE_SAME);
-                else
+                else {
                     c.count(K_VALUE_OTHER);
+                    try {
+                        (void)free_symbols(*r);
+                    } catch (std::exception &x) {
+                        post_exc("free_symbols", x);
+                    }
+                    try {
+                        std::string d2 = r->dumps();
+                        (void)d2;
+                    } catch (std::exception &x) {
+                        post_exc("dumps", x);
+                    }
+                    try {
+                        B ev = evalf(*r, 53, EvalfDomain::Symbolic);
+                        if (!ev.is_null())
+                            c.count(K_EVALF_OK);
+                    } catch (std::exception &x) {
+                        post_exc("evalf", x);
+                    }
+                }
             }
         }
     }
+    g_cap_active = false;
     double dt = cpu_now() - t0;
+    c.count(K_US_TOTAL, (uint64_t)(dt * 1e6));
     size_t ma = g_max_alloc;
-    if (ma > (16u << 20))
+    if (ma > (64u << 10))
         c.count(K_ALLOC_16MB);
     if (dt > 0.25)
         c.count(K_SLOW);
     if (ma > BOMB && outcome.find("alloc-bomb") == std::string::npos)
-        viol("alloc-bomb", "a single allocation of " + std::to_string(ma >> 20) + " MB was requested while loading "
+        viol("alloc-bomb", "a single allocation of " + std::to_string(ma) + " bytes was requested while loading "
                                + std::to_string(m.size()) + " untrusted bytes (outcome otherwise: " + outcome + ")");
     else if (dt > 2.0)
         viol("stall", "the case used " + std::to_string(dt) + " s of CPU (outcome otherwise: " + outcome + ")");
@@ -511,7 +629,7 @@ static void run_devs(const std::string &name, const std::vector<Dev> &D, CaseSet
     cs.name = name;
     cs.n = D.size();
     cs.counter_names = CN;
-    cs.hang_s = 5;
+    cs.hang_s = 10;
     cs.desc = [&D, name](long long i) {
         std::string d = dev_desc(D[i]);
         if (REPORTS.empty())
@@ -542,10 +660,10 @@ static void run_devs(const std::string &name, const std::vector<Dev> &D, CaseSet
             scan_reports();
             it = REPORTS.find(name + " " + std::to_string(i));
         }
-        std::string cls = oc, fn;
-        if (oc == "hang")
-            cls = "hang";
-        else if (it != REPORTS.end()) {
+        // the core may append " [sanitizer summary]" to the outcome; the class used here comes from the report
+        // captured by this driver (also available for crashes that are not re-run alone)
+        std::string cls = oc.substr(0, oc.find(" [")), fn;
+        if (cls.find("hang") == std::string::npos && it != REPORTS.end()) {
             std::string rc = report_class(it->second);
             if (rc == "alloc-bomb")
                 return "loads:alloc-bomb:" + dev_field(D[i]);
@@ -687,10 +805,25 @@ int main(int argc, char **argv)
         s.recipe = cands[i].recipe;
         s.cls = sstr(cands[i].e);
         s.key = key(*cands[i].e);
+        s.tc = cands[i].e->get_type_code();
         s.d = cands[i].d;
         // the recorded dump must be what Basic::dumps produces (same length and field structure) and must load back
         std::string ref = cands[i].e->dumps();
-        if (ref.size() != s.d.bytes.size() || key(*Basic::loads(s.d.bytes)) != key(*cands[i].e)) {
+        g_max_alloc = 0;
+        g_cap_active = true;
+        B back = Basic::loads(s.d.bytes);
+        g_cap_active = false;
+        try { // the value-level operations of the oracle, once on the unmodified value
+            (void)back->__str__();
+            (void)back->hash();
+            (void)free_symbols(*back);
+            (void)back->dumps();
+            (void)evalf(*back, 53, EvalfDomain::Symbolic);
+        } catch (SymEngineException &) {
+        }
+        R.counters["largest_allocation_while_loading_an_unmodified_seed"]
+            = std::max<uint64_t>(R.counters["largest_allocation_while_loading_an_unmodified_seed"], (uint64_t)g_max_alloc);
+        if (ref.size() != s.d.bytes.size() || key(*back) != key(*cands[i].e) || g_max_alloc > ALLOC_CAP / 8) {
             printf("seed %s: recorded dump differs from Basic::dumps\n", s.recipe.c_str());
             return 2;
         }
@@ -827,7 +960,7 @@ int main(int argc, char **argv)
              "evalf are run on it)";
     R.assumptions = {"seeds are dumps of states already round-tripped by C19; field kinds come from the recorded write boundaries of the "
                      "real archive (used for signatures and short-circuiting only, never for the verdict)",
-                     "a single allocation > 64 MB while loading < 1 KB of input is an allocation bomb; ASan aborts allocations > 512 MB",
+                     "a single allocation request > 64 KB while loading < 1 KB of input is an allocation bomb (length field not validated against the input); the driver's operator new refuses it with bad_alloc instead of performing it",
                      "library exceptions thrown by str/evalf/... on a returned value are counted as refusals, not failures"};
     return R.finish();
 }
